@@ -60,10 +60,24 @@ def _line(c):
     fn = c['fn']
     sh = f"shape={gen.enc_shape(c['shape'])}"
     if fn == 'fold':
+        ml = c.get('minlength')
         return (f"c13 kind=fold op={c['op']} dt={_dtn(c['dtype'])} scale={SCALE} n={c['n']} "
+                f"minlength={'-' if ml is None else ml} "
                 f"data={gen.enc_arr(c['data'])} labels={gen.enc_arr(c['labels'])}")
-    if fn in ('size', 'hist'):
+    if fn == 'size':
+        return f"c13 kind=size data={gen.enc_arr(c['data'])}"
+    if fn == 'hist':
+        if not _hist_accepts(c['dtype']):
+            return f"c13 kind=histok dt={_dtn(c['dtype'])}"
         return f"c13 kind=hist dt={_dtn(c['dtype'])} data={gen.enc_arr(c['data'])}"
+    if fn == 'bboxb':
+        return (f"c13 kind=bboxb {sh} data={gen.enc_arr(c['bits'])} border={c['border'] or 0} fast={c['fast']}")
+    if fn == 'rmwhere':
+        return f"c13 kind=rmwhere labels={gen.enc_arr(c['labels'])} conds={gen.enc_arr(c['conds'])}"
+    if fn == 'perimeter':
+        _, bshape, el = _bc_arg(c)
+        return (f"c13 kind=perimeter {sh} labels={gen.enc_arr(c['bits'])} bshape={gen.enc_shape(bshape)} "
+                f"bc={gen.enc_arr(el)} mode={c['mode']}")
     if fn == 'bbox':
         return f"c13 kind=bbox {sh} data={gen.enc_arr(c['bits'])}"
     if fn == 'bboxl':
@@ -74,6 +88,9 @@ def _line(c):
     if fn == 'relabel':
         return f"c13 kind=relabel labels={gen.enc_arr(c['labels'])}"
     if fn == 'same':
+        if 'shape2' in c:
+            return (f"c13 kind=same2 {sh} shape2={gen.enc_shape(c['shape2'])} labels={gen.enc_arr(c['labels'])} "
+                    f"labels2={gen.enc_arr(c['labels2'])}")
         return f"c13 kind=same labels={gen.enc_arr(c['labels'])} labels2={gen.enc_arr(c['labels2'])}"
     if fn == 'remove':
         return f"c13 kind=remove labels={gen.enc_arr(c['labels'])} regions={gen.enc_arr(c['regions'])}"
@@ -91,6 +108,14 @@ def _line(c):
         return (f"c13 kind={fn} {sh} labels={gen.enc_arr(lab)} bshape={gen.enc_shape(bshape)} "
                 f"bc={gen.enc_arr(el)}{extra}")
     raise ValueError(fn)
+
+
+def _hist_accepts(dtype):
+    """what the harness expects of the dtype; the driver's `histAccepts` is compared with the behaviour"""
+    return dtype == 'bool' or dtype in UINT
+
+
+SQRT2 = float(np.sqrt(2))
 
 
 def _diff(key, got, spec, model, mask=None, silent_model=None):
@@ -125,6 +150,8 @@ def _run(c, drv):
         if r.dtype != A.dtype or r.shape != (c['n'],):
             return [dict(kind='property', key=key, detail=dict(why='result type/length', dtype=str(r.dtype),
                                                                shape=r.shape, n=c['n']))]
+        if int(drv['len']) != r.shape[0]:   # the wrapper's `max(labeled.max() + 1, minlength)` as modelled by `foldLen`
+            return [dict(kind='model', key=key + ':length-model', detail=dict(got=r.shape[0], model=drv['len']))]
         cnt = core.ints(drv['cnt'])
         if cls == 'float':
             got = [core.f2bits(x) for x in r.astype(np.float64).tolist()]
@@ -146,12 +173,76 @@ def _run(c, drv):
         return _diff(key, got, spec, model, mask)
     if fn in ('size', 'hist'):
         A = _arr(c['data'], c['dtype'], shape)
-        r = ml.labeled_size(A) if fn == 'size' else mh.fullhistogram(A)
         key = 'labeled_size' if fn == 'size' else 'fullhistogram'
+        if fn == 'hist' and 'accept' in drv:
+            # a dtype outside the documented domain (signed, float): the wrapper/kernel refuses it
+            if _bools(drv['accept']) != [False]:
+                return [dict(kind='model', key='fullhistogram:dtype-model', detail=dict(dtype=c['dtype']))]
+            try:
+                r = mh.fullhistogram(A)
+            except (TypeError, RuntimeError, ValueError):
+                return []
+            return [dict(kind='model', key='fullhistogram:accepts-' + c['dtype'], detail=dict(got=r.tolist()))]
+        r = ml.labeled_size(A) if fn == 'size' else mh.fullhistogram(A)
+        if r.dtype != np.uintc:
+            return [dict(kind='model', key=key + ':dtype', detail=dict(dtype=str(r.dtype)))]
         spec = core.ints(drv['spec'])
-        if fn == 'size' and c['dtype'] == 'bool':
-            return []
-        return _diff(key, [int(x) for x in r.tolist()], spec, core.ints(drv['model']))
+        # labels >= 2^32 are reduced modulo 2^32 by labeled_size (astype(uint32)): only the model describes that
+        wraps = fn == 'size' and any(v >= 2 ** 32 for v in c['data'])
+        got = [int(x) for x in r.tolist()]
+        return _diff(key, got, got if wraps else spec, core.ints(drv['model']))
+    if fn == 'bboxb':
+        A = gen.relayout(_arr(c['data'], c['dtype'], shape), lay)
+        b = c['border']
+        kw = {} if c.get('omit') else dict(border=b)
+        r = [int(x) for x in mh.bbox(A, **kw).tolist()]
+        box = core.ints(drv['box'])
+        if r != box:
+            return [dict(kind='model', key='bbox:border-model', detail=dict(got=r, model=box))]
+        sl = mh.bbox(A, as_slice=True, **kw)
+        if [(int(x.start), int(x.stop)) for x in sl] != [(box[2 * j], box[2 * j + 1]) for j in range(A.ndim)]:
+            return [dict(kind='model', key='bbox:as_slice-model', detail=dict(got=str(sl), model=box))]
+        bounds = core.ints(drv['slices'])
+        if [x.indices(n)[:2] for x, n in zip(sl, A.shape)] != [(bounds[2 * j], bounds[2 * j + 1]) for j in range(A.ndim)]:
+            return [dict(kind='model', key='bbox:slice-bounds-model', detail=dict(got=str(sl), model=bounds))]
+        crop = mh.croptobbox(A, **kw)
+        flat = A.ravel(order='C')
+        got = crop.ravel(order='C').tolist()
+        if drv['spec'] != 'none':
+            want = flat[core.ints(drv['spec'])].tolist() if drv['spec'] else []
+            if got != want:
+                return [dict(kind='property', key='croptobbox:border',
+                             detail=dict(got=got, spec=want, shape=crop.shape, border=b))]
+            nz = int(np.count_nonzero(A))
+            if int(np.count_nonzero(crop)) != nz:
+                return [dict(kind='property', key='croptobbox:border', detail=dict(why='lost a non-zero pixel'))]
+        cidx = core.ints(drv['cidx'])
+        if list(crop.shape) != core.ints(drv['cshape']) or got != (flat[cidx].tolist() if cidx else []):
+            return [dict(kind='model', key='croptobbox:border-model',
+                         detail=dict(got=got, shape=crop.shape, cshape=drv['cshape'], cidx=cidx))]
+        return []
+    if fn == 'rmwhere':
+        L = np.array(c['labels'], dtype=np.intc).reshape(shape)
+        keep = L.copy()
+        conds = np.array(c['conds'], dtype=bool) if c.get('cbool', True) else list(c['conds'])
+        r = ml.remove_regions_where(L, conds, inplace=bool(c.get('inplace')))
+        f = []
+        if not c.get('inplace') and not np.array_equal(L, keep):
+            f.append(dict(kind='property', key='remove_regions_where:input-modified', detail={}))
+        return f + _diff('remove_regions_where', [int(x) for x in _flat(r)], core.ints(drv['spec']),
+                         core.ints(drv['model']))
+    if fn == 'perimeter':
+        A = gen.relayout(_arr(c['data'], c['dtype'], shape), lay)
+        r = float(ml.perimeter(A, c['bc'], c['mode']))
+        spec, model = core.ints(drv['spec']), core.ints(drv['model'])
+        val = lambda n: n[0] + n[1] * SQRT2 + n[2] * (1 + SQRT2) / 2
+        key = 'perimeter:' + c['mode']
+        # the three counts are integers and the weights differ by more than 0.2: a tolerance of 1e-6 decides
+        if abs(r - val(spec)) > 1e-6 * max(1.0, abs(r)):
+            return [dict(kind='property', key=key, detail=dict(got=r, spec=spec, value=val(spec)))]
+        if abs(r - val(model)) > 1e-6 * max(1.0, abs(r)):
+            return [dict(kind='model', key=key + '-model', detail=dict(got=r, model=model))]
+        return []
     if fn == 'bbox':
         A = gen.relayout(_arr(c['data'], c['dtype'], shape), lay)
         fast = A.ndim == 2 and A.flags.c_contiguous and A.flags.aligned
@@ -213,7 +304,7 @@ def _run(c, drv):
                          core.ints(drv['model']) + [int(drv['nmodel'])])
     if fn == 'same':
         a = np.array(c['labels'], dtype=c.get('ldtype', 'int32')).reshape(shape)
-        b = np.array(c['labels2'], dtype=c.get('ldtype2', 'int32')).reshape(shape)
+        b = np.array(c['labels2'], dtype=c.get('ldtype2', 'int32')).reshape(c.get('shape2', shape))
         r = bool(ml.is_same_labeling(a, b))
         return _diff('is_same_labeling', [r], _bools(drv['spec']), _bools(drv['model']))
     if fn == 'remove':
@@ -281,9 +372,12 @@ def _prep(c):
         if c.get('minlength') is not None:
             n = max(n, c['minlength'])
         c['n'] = n
-    if fn in ('bbox', 'bwperim'):
+    if fn in ('bbox', 'bwperim', 'bboxb', 'perimeter'):
         A = _arr(c['data'], c['dtype'], c['shape'])
         c['bits'] = [int(v != 0) for v in A.ravel().tolist()]
+    if fn == 'bboxb':
+        V = gen.relayout(A, c.get('layout', 'C'))
+        c['fast'] = int(V.ndim == 2 and bool(V.flags.c_contiguous) and bool(V.flags.aligned))
     return c
 
 
@@ -372,9 +466,17 @@ def _gen_hist(rng):
     shape = _shape(rng)
     n = int(np.prod(shape))
     if rng.random() < 0.5:
-        return dict(fn='size', dtype=rng.choice(['int32', 'int64', 'uint8', 'uint16', 'int16', 'uint32']), shape=shape,
-                    data=_labels(rng, n, maxlab=rng.choice([1, 3, 9, 40])))
-    dtype = rng.choice(UINT + ['bool'])
+        dtype = rng.choice(['int32', 'int64', 'uint8', 'uint16', 'int16', 'uint32', 'bool', 'uint64', 'int8'])
+        data = _labels(rng, n, maxlab=rng.choice([1, 3, 9, 40]))
+        if dtype == 'bool':
+            data = [int(v != 0) for v in data]
+        elif dtype in ('int64', 'uint64') and rng.random() < 0.25:
+            # labels beyond 2^32: labeled_size reduces them modulo 2^32 (astype(uint32))
+            data = [v + 2 ** 32 * rng.choice([0, 0, 1, 3]) for v in data]
+        return dict(fn='size', dtype=dtype, shape=shape, data=data)
+    dtype = rng.choice(UINT + UINT + ['bool', 'bool'] + SINT + FLOATS)
+    if not _hist_accepts(dtype):
+        return dict(fn='hist', dtype=dtype, shape=shape, data=[rng.randint(0, 9) for _ in range(n)])
     hi = 1 if dtype == 'bool' else rng.choice([1, 3, 17, 255, 300, 4000])
     hi = min(hi, gen.dt_range(dtype)[1])
     return dict(fn='hist', dtype=dtype, shape=shape, data=[rng.randint(0, hi) for _ in range(n)])
@@ -398,6 +500,65 @@ def _gen_bbox(rng):
         else:
             data.append(0)
     return dict(fn='bbox', dtype=dtype, shape=shape, data=data, layout=rng.choice(gen.LAYOUTS))
+
+
+def _gen_bboxb(rng):
+    """bbox(border=, as_slice=) and croptobbox(border=): the Python arithmetic around the kernel"""
+    c = _gen_bbox(rng)
+    c['fn'] = 'bboxb'
+    c['border'] = rng.choice([None, 0, 1, 1, 2, 3, 10, -1, -2])
+    if c['border'] is None and rng.random() < 0.5:
+        c['omit'] = True
+    return c
+
+
+def _blob_bits(rng, shape):
+    """a few rectangles / diagonal strokes / isolated pixels: exercises every class of the perimeter table"""
+    h, w = shape
+    B = np.zeros(shape, int)
+    for _ in range(rng.randint(1, 4)):
+        y0, x0 = rng.randrange(h), rng.randrange(w)
+        style = rng.random()
+        if style < 0.5:
+            B[y0:y0 + rng.randint(1, 5), x0:x0 + rng.randint(1, 5)] = 1
+        elif style < 0.8:
+            dy = rng.choice([1, -1])
+            for t in range(rng.randint(2, 6)):
+                y, x = y0 + dy * t, x0 + t
+                if 0 <= y < h and 0 <= x < w:
+                    B[y, x] = 1
+        else:
+            B[y0, x0] = 1
+    if rng.random() < 0.3:
+        for _ in range(rng.randint(1, 4)):
+            B[rng.randrange(h), rng.randrange(w)] ^= 1
+    return B.ravel().tolist()
+
+
+def _gen_perimeter(rng):
+    shape = list(gen.small_shape(rng, ndim=2, maxlen=rng.choice([4, 7, 11])))
+    n = int(np.prod(shape))
+    dtype = rng.choice(['bool', 'uint8', 'int32', 'float64'])
+    if rng.random() < 0.6:
+        bits = _blob_bits(rng, shape)
+    else:
+        p = rng.choice([0.3, 0.6, 0.85])
+        bits = [int(rng.random() < p) for _ in range(n)]
+    data = [(1 if dtype == 'bool' else rng.choice([1, 2, 7])) if b else 0 for b in bits]
+    return dict(fn='perimeter', shape=shape, dtype=dtype, data=data, bc=rng.choice([4, 8]),
+                mode=rng.choice(MODES + ['constant', 'constant']), layout=rng.choice(gen.LAYOUTS))
+
+
+def _gen_rmwhere(rng):
+    shape = _zero_axis(rng, _shape(rng))
+    n = int(np.prod(shape))
+    labels = _labels(rng, n, nonneg=rng.random() < 0.8)
+    top = max(labels, default=0)
+    k = rng.choice([0, 1, top, top + 1, top + 1, top + 4])
+    p = rng.choice([0.0, 0.3, 0.6, 1.0])
+    conds = [int(rng.random() < p) for _ in range(max(k, 0))]
+    return dict(fn='rmwhere', shape=shape, labels=labels, conds=conds, inplace=rng.random() < 0.3,
+                cbool=rng.random() < 0.7)
 
 
 def _gen_bboxl(rng):
@@ -456,7 +617,7 @@ def _gen_same(rng):
     shape = _zero_axis(rng, _shape(rng))
     n = int(np.prod(shape))
     if n == 0:
-        return dict(fn='same', shape=shape, labels=[], labels2=[], ldtype='int32', ldtype2='int32')
+        return dict(fn='same', shape=shape, labels=[], labels2=[], ldtype='int32', ldtype2='int32', shape2=list(shape))
     a = _labels(rng, n, nonneg=rng.random() < 0.8)
     vals = sorted(set(a))
     style = rng.random()
@@ -485,8 +646,22 @@ def _gen_same(rng):
         b = _labels(rng, n)
     if rng.random() < 0.5:
         a, b = b, a
-    return dict(fn='same', shape=shape, labels=a, labels2=b, ldtype=rng.choice(['int32', 'int64', 'int16']),
-                ldtype2=rng.choice(['int32', 'int64']))
+    c = dict(fn='same', shape=shape, labels=a, labels2=b, ldtype=rng.choice(['int32', 'int64', 'int16']),
+             ldtype2=rng.choice(['int32', 'int64']), shape2=list(shape))
+    r = rng.random()
+    if r < 0.06:            # same pixels in scan order, another shape (flattened / transposed extents)
+        c['shape2'] = [n] if len(shape) > 1 else [1, n]
+        if len(shape) > 1 and rng.random() < 0.5:
+            c['shape2'] = list(reversed(shape))
+    elif r < 0.12 and n >= 2:   # the second map is shorter / longer along the last axis (a prefix agrees)
+        inner = int(np.prod(shape[:-1]))
+        if rng.random() < 0.5 and shape[-1] >= 2:
+            B = np.array(b, dtype=object).reshape(shape)[..., :-1]
+        else:
+            B = np.concatenate([np.array(b, dtype=object).reshape(shape)] * 2, axis=-1)[..., :shape[-1] + 1]
+        c['labels2'] = B.ravel().tolist()
+        c['shape2'] = list(B.shape)
+    return c
 
 
 def _gen_remove(rng):
@@ -562,8 +737,9 @@ def _gen_bwperim(rng):
                 mode=rng.choice(MODES + ['constant']), layout=rng.choice(gen.LAYOUTS))
 
 
-GENS = [(_gen_fold, 5), (_gen_hist, 1), (_gen_bbox, 2), (_gen_bboxl, 1), (_gen_com, 2), (_gen_relabel, 1),
-        (_gen_same, 1.5), (_gen_remove, 1), (_gen_rmborder, 1), (_gen_filter, 1), (_gen_borders, 3), (_gen_bwperim, 1)]
+GENS = [(_gen_fold, 5), (_gen_hist, 1.3), (_gen_bbox, 2), (_gen_bboxl, 1), (_gen_com, 2), (_gen_relabel, 1),
+        (_gen_same, 1.5), (_gen_remove, 1), (_gen_rmborder, 1), (_gen_filter, 1), (_gen_borders, 3), (_gen_bwperim, 1),
+        (_gen_bboxb, 1.2), (_gen_perimeter, 1.2), (_gen_rmwhere, 0.8)]
 
 
 def cases(rng, tier):
@@ -582,7 +758,7 @@ def shrink(case):
     fields = [k for k in ('data', 'labels', 'labels2') if isinstance(case.get(k), list)]
     n = int(np.prod(shape))
     for ax in range(len(shape)):
-        if shape[ax] > 1:
+        if shape[ax] > 1 and case.get('shape2', shape) == shape:
             for j in (shape[ax] - 1, 0):
                 c = dict(case)
                 ok = True
@@ -590,6 +766,8 @@ def shrink(case):
                     B = np.delete(np.array(case[k], dtype=object).reshape(shape), j, axis=ax)
                     c[k] = B.ravel().tolist()
                     c['shape'] = list(B.shape)
+                    if 'shape2' in case:
+                        c['shape2'] = list(B.shape)
                 if case['fn'] in ('fold', 'bboxl', 'com') and case.get('labels') and max(c['labels']) < 0:
                     ok = False
                 if isinstance(case.get('rsize'), list):
